@@ -77,7 +77,16 @@ At(t, p) == IF p >= 1 /\ p <= Len(t) THEN t[p] ELSE EOT
 Fail == [ok |-> FALSE]
 Ok(a, p) == [ok |-> TRUE, ast |-> a, pos |-> p]     \* p: index of the next unread character
 
-\* one character of a class: [ok, c, pos]
+\* Escapes, position by position (a '\' always takes the next character with it;
+\* the pair denotes that character, whatever its position):
+\*   outside a class   '\' c, c printable and not a letter/digit  -> Sym(c)        (PAtom)
+\*   class, single item        [ \c ]      -> the member c
+\*   class, start of a range   [ \c - d ]  -> the range c..d
+\*   class, end of a range     [ c - \d ]  -> the range c..d  (NOT c..'\' followed by d)
+\*   class, both ends          [ \c - \d ] -> the range c..d
+\* An unescaped ']' '[' '\' '^' '-' is never a class member: ']' closes, '-' after an item makes
+\* a range, a leading '^' (negation) and the others are outside the supported syntax.
+\* one character of a class (single item or either end of a range): [ok, c, pos]
 ClassChar(t, p) ==
     LET c == At(t, p) IN
     IF c = cBsl THEN (IF Escapable(At(t, p + 1)) THEN [ok |-> TRUE, c |-> At(t, p + 1), pos |-> p + 2] ELSE Fail)
@@ -143,7 +152,9 @@ PostfixChar(r) == CASE r.op = "star" -> cStar [] r.op = "plus" -> cPlus [] r.op 
 \* Defined for ASTs without eps / null / or (which have no concrete syntax)
 \* whose classes are non-empty sets of literal characters.
 RECURSIVE Show(_, _), ShowSet(_)
-ShowSet(S) == IF S = {} THEN <<>> ELSE LET c == CHOOSE x \in S : \A y \in S : x <= y IN <<c>> \o ShowSet(S \ {c})
+ShowSet(S) == IF S = {} THEN <<>>
+              ELSE LET c == CHOOSE x \in S : \A y \in S : x <= y
+                   IN (IF c \in ClassSpecial THEN <<cBsl, c>> ELSE <<c>>) \o ShowSet(S \ {c})
 Show(r, ctx) ==
     LET body == CASE r.op = "sym"   -> (IF Literal(r.c) THEN <<r.c>> ELSE <<cBsl, r.c>>)
                   [] r.op = "any"   -> <<cDot>>
